@@ -5,3 +5,6 @@ open Verif.Props.C08
 #print axioms decimal_length
 #print axioms decimal_value
 #print axioms decimal_grammar
+#print axioms number_grammar
+#print axioms number_shape
+#print axioms decimal_shape
